@@ -325,3 +325,48 @@ Definition collector_run_cx (g : graph) (x : extset) (o : orders) (f : faults) (
   | _ :: _ => let '(ld, ed) := service_shutdown_cx g x o f c d in (ls ++ ld, es ++ ed)          (* same ctx *)
   | [] => let '(ld, ed) := service_shutdown_cx g x o f c (d0_stop c) in (ls ++ ld, ed)          (* its own ctx *)
   end.
+
+(* ---- otelcol/collector.go Run with configuration reloads ------------------------------------------
+   Every configuration builds a NEW service (new component instances): a generation.
+     Run:  setupConfigurationComponents (generation 0; a failed Start => Shutdown, Run returns);
+           control loop: a reload event => reloadConfiguration:
+               col.service.Shutdown(ctx)  -- error => "failed to shutdown the retiring config", Run RETURNS
+               setupConfigurationComponents (next generation; failed Start => its Shutdown) -- error => Run RETURNS
+           a shutdown request => col.shutdown => col.service.Shutdown, Run returns.
+   A failed reload returns WITHOUT any further shutdown: the service concerned has been shut down already.
+   Result: for every service that was built, in order, its event log and the errors it contributed
+   to what Run returns. *)
+Record gen : Type := { gn_graph : graph; gn_ext : extset; gn_ord : orders; gn_faults : faults }.
+
+Definition gen_start (n : gen) := service_start (gn_graph n) (gn_ext n) (gn_ord n) (gn_faults n).
+Definition gen_shutdown (n : gen) := service_shutdown (gn_graph n) (gn_ext n) (gn_ord n) (gn_faults n).
+Definition gen_run (n : gen) := collector_run (gn_graph n) (gn_ext n) (gn_ord n) (gn_faults n).
+
+(* [cur] is running (its Start produced [ls_cur] without error); [rest] = the configurations of
+   the reload events still to come, then a shutdown request *)
+Fixpoint reload_loop (cur : gen) (ls_cur : list ev) (rest : list gen) : list (list ev * list err) :=
+  match rest with
+  | [] => let '(ld, ed) := gen_shutdown cur in [(ls_cur ++ ld, ed)]
+  | nxt :: rest' =>
+      let '(ld, ed) := gen_shutdown cur in
+      match ed with
+      | _ :: _ => [(ls_cur ++ ld, ed)]
+      | [] =>
+          let '(ls, es) := gen_start nxt in
+          match es with
+          | _ :: _ => let '(ld2, ed2) := gen_shutdown nxt in [(ls_cur ++ ld, []); (ls ++ ld2, es ++ ed2)]
+          | [] => (ls_cur ++ ld, []) :: reload_loop nxt ls rest'
+          end
+      end
+  end.
+
+Definition collector_run_reload (gens : list gen) : list (list ev * list err) :=
+  match gens with
+  | [] => []
+  | g0 :: rest =>
+      let '(ls, es) := gen_start g0 in
+      match es with
+      | _ :: _ => let '(ld, ed) := gen_shutdown g0 in [(ls ++ ld, es ++ ed)]
+      | [] => reload_loop g0 ls rest
+      end
+  end.
